@@ -9,6 +9,7 @@ from lib.sessions import C_BIND, C_EXT, C_SEARCH, CLIENT, DRAIN, RECV, SEND_CALL
 class C09(SessionProp):
     id = "C09"
     prop_file = "Props/C09"
+    unenc = 0.04
     gen_role = CLIENT
     rule = (
         "corpus of 300-cycle histories replaying retired ids >= 257 and of >64 KiB queues; seeded client histories (1-14 calls, 1% long/large as in the corpus): bind/search/extended requests interleaved with deliveries of server "
